@@ -161,7 +161,7 @@ func TestC11(t *testing.T) {
 		realServer(t, r)
 	}
 	r.Require("polls_ok", "polls_failed", "changes_forward", "changes_backward", "changes_inside_window", "expired_with_handle_polls",
-		"cadence_rounds", "cadence_cases_with_slow_service", "cadence_cases_with_an_outage", "parked_cache_write_cases", "ticker_overlap_cases", "coalesced_refreshes", "coalesced_with_cancelled_leader", "coalesced_after_a_joiner_gave_up", "polls_with_cache_down", "real_server_refreshes", "real_server_empty_values", "final_convergence_checks")
+		"cadence_rounds", "cadence_cases_with_slow_service", "cadence_cases_with_an_outage", "cadence_cases_with_explicit_refreshes", "parked_cache_write_cases", "ticker_overlap_cases", "coalesced_refreshes", "coalesced_with_cancelled_leader", "coalesced_after_a_joiner_gave_up", "polls_with_cache_down", "real_server_refreshes", "real_server_empty_values", "final_convergence_checks")
 	r.Rule("A: seeded histories of 8-25 events over 2-5 secrets (declared, looked-up, expiry-aged with a live unread handle): service changes (new version / re-activate an older one / bursts), Refresh with per-request failure and hold scripts (service changes inside the held window), sleeps up to several expiry ages, handle probes; oracle after every Refresh on the cache payload and at probes on handles. Plus cadence cases (background poller, instant service), coalescing cases (K refreshes while the first request is parked) and B: real server+client histories. Distinct = (event kind, poll outcome, backwards?, held?, expiry shape)")
 }
 
@@ -479,6 +479,13 @@ func cadenceCase(t *testing.T, r *evid.Run, idx int) {
 			eff = time.Hour // documented default
 		}
 		start := time.Now()
+		// explicit refreshes by the application between the background polls (their requests are told apart by
+		// their start instants): the background cadence is what it is, whoever else asks in between
+		var explicit []time.Duration
+		nExplicit := rng.IntN(3)
+		if svc.Behave != nil {
+			nExplicit = 0 // (with a slow service an explicit refresh may still be in flight at the next tick, whose poll then joins it)
+		}
 		if svc.Behave == nil && rng.IntN(2) == 0 {
 			// an outage of several intervals in the middle: the polls fail, one per interval all the same
 			from, to := time.Duration(2+rng.IntN(3))*eff, time.Duration(6+rng.IntN(4))*eff
@@ -494,7 +501,25 @@ func cadenceCase(t *testing.T, r *evid.Run, idx int) {
 		if err != nil {
 			t.Fatalf("NewStore: %v", err)
 		}
-		time.Sleep(12 * eff)
+		if nExplicit > 0 {
+			// at odd fractions of the interval, never on a tick
+			var at []time.Duration
+			for k := 0; k < nExplicit; k++ {
+				at = append(at, time.Duration(1+rng.IntN(10))*eff+eff*time.Duration(1+rng.IntN(8))/10)
+			}
+			sort.Slice(at, func(i, j int) bool { return at[i] < at[j] })
+			for _, a := range at {
+				if d := a - time.Since(start); d > 0 {
+					time.Sleep(d)
+				}
+				explicit = append(explicit, time.Since(start))
+				st.Refresh(context.Background())
+			}
+			r.Count("cadence_cases_with_explicit_refreshes", 1)
+		}
+		if d := 12*eff - time.Since(start); d > 0 {
+			time.Sleep(d)
+		}
 		st.Close()
 		// round instants = distinct start times of conditional requests
 		var rounds []time.Duration
@@ -503,7 +528,16 @@ func cadenceCase(t *testing.T, r *evid.Run, idx int) {
 			if q.Cond {
 				// a round asks for both secrets, one after the other, in no particular order: its first request marks it
 				if nCond%2 == 0 {
-					rounds = append(rounds, q.Start.Sub(start))
+					at := q.Start.Sub(start)
+					isExplicit := false
+					for _, e := range explicit {
+						if at == e {
+							isExplicit = true
+						}
+					}
+					if !isExplicit {
+						rounds = append(rounds, at)
+					}
 				}
 				nCond++
 			}
